@@ -472,6 +472,28 @@ for _p in ("C04", "C07", "C10"):
                                "sleeps, injected faults) judged by the invariant oracles only (never two live processes; per sender and priority "
                                "FIFO, exactly once; every ticket resolved when the job ends); thorough tier also runs that family under ThreadSanitizer")
 
+# ThreadSanitizer overlay for the in-process engine (thorough tier): the same producer / reconfiguration / error-routing
+# workloads in a -Zsanitizer=thread build; only the race detector's reports are verdicts there (the build is 5-15x slower,
+# so the engine's own real-time oracles are not judged in those shards)
+for _p in ("C01", "C13", "C15"):
+    PROPS[_p]["tsan"] = {"package": "wxlib", "shards": 4, "tiers": ["thorough"], "reports_only": True}
+    PROPS[_p]["level_note"] += ("; thorough tier: the same workloads also run in a ThreadSanitizer build (4 extra shards), where a repeated "
+                                "race report with a racing access inside a watchexec crate is a violation and nothing else is judged")
+
+# Interpreter overlay for the supervisor's lock-free parts (thorough tier): the no-process slice of the multi-threaded
+# family (harness/mirijob) inside Miri with a per-shard scheduler seed and a raised pre-emption rate. Miri reports data
+# races and undefined behaviour itself and pre-empts threads between any two basic blocks, which produces interleavings
+# of the ticket flags / waker slots / control queues that native runs practically never show; the C07 / C10 oracles judge
+# them. Weak-memory emulation is off: with it tokio's own oneshot / task wake-up (harness side) got stuck, see DESIGN 9.7.
+for _p in ("C07", "C10"):
+    PROPS[_p]["miri"] = {"package": "mirijob", "shards": NC, "tiers": ["thorough"], "seeded": True,
+                         "flags": "-Zmiri-disable-isolation -Zmiri-ignore-leaks -Zmiri-preemption-rate=0.05 -Zmiri-disable-weak-memory-emulation"}
+    PROPS[_p]["level_note"] += ("; thorough tier: a no-process slice of the multi-threaded family (concurrent senders at all three priorities, "
+                                "gates, tickets awaited through clones / after an early poll / inline / not at all, failing spawns, delete / "
+                                "delete_now / last handle dropped) also runs inside Miri with a different scheduler seed per shard and a raised "
+                                "pre-emption rate (data-race and undefined-behaviour detection; weak-memory emulation off, see DESIGN 9.7), "
+                                "judged by the same ticket and ordering oracles")
+
 # end-to-end slices through the production binary (hooks off)
 for _p, _txt in (("C12", "; an end-to-end slice runs random flag subsets through the production binary with --only-emit-events "
                          "--emit-events-to=json-stdio, touches one probe file per source plus sentinels and compares the reported set "
